@@ -78,11 +78,36 @@ pub fn parameter_has_annotation(lines: &[&str], line: usize, end_char: usize) ->
 { unimplemented!() }
 
 impl Backend {
-    // ASSUMED (src/providers/call_hierarchy.rs, string search): uninterpreted
-    #[verifier::external_body]
-    fn find_parameter_ranges(&self, file_path: &std::path::Path, line: usize, param_name: &str) -> (r: Option<Vec<Range>>)
-        ensures (match r { Some(v) => Some(v@), None => None::<Seq<Range>> }) == param_ranges(self.fixture_db.file_cache.m(), pv(file_path), line, param_name@)
-    { unimplemented!() }
+/*@ extract src/providers/call_hierarchy.rs find_parameter_ranges
+@tags C15 C11
+@ret r
+@wrapexpr 1 `content.lines().collect()` => `Self::vp_lines_vec(&content)` with fn vp_lines_vec<'a, 'b>(content: &'a Ref<'b, PathBuf, String>) -> (r: Vec<&'a str>) ensures strs_ref_v(r@) == text_lines(Some((*content.r)@))
+@wrapexpr 1 `line_content.find(param_name)` => `Self::vp_find_in_line(line_content, param_name)` with fn vp_find_in_line(line_content: &&str, param_name: &str) -> (r: Option<usize>) ensures r == str_find((*line_content)@, param_name@), r is Some ==> r->0 + param_name.spec_bytes().len() <= (*line_content).spec_bytes().len() <= usize::MAX
+@sig
+    ensures line_fits(line) ==> (match r {
+        Some(v) => param_ranges(self.fixture_db.file_cache.m(), pv(file_path), line, param_name@) is Some
+            && v@ =~= param_ranges(self.fixture_db.file_cache.m(), pv(file_path), line, param_name@)->0,
+        None => param_ranges(self.fixture_db.file_cache.m(), pv(file_path), line, param_name@) is None }),
+@after lines 1
+    proof { assert(strs_ref_v(lines@).len() == lines@.len()); }
+@after line_content 1
+    proof { assert(strs_ref_v(lines@)[line.saturating_sub(1) as int] == (*line_content)@); }
+@return 1
+    if line_fits(line) {
+        let cache = self.fixture_db.file_cache.m();
+        let f = pv(file_path);
+        assert(cache.contains_key(f));
+        let ls = text_lines(Some(cache[f]@));
+        assert(strs_ref_v(lines@) == ls);
+        let idx = if line == 0 { 0int } else { line - 1 };
+        assert(idx < ls.len());
+        assert(ls[idx] == (*line_content)@);
+        assert(str_find(ls[idx], param_name@) == Some(start));
+        axiom_utf8_len(param_name);
+        assert(param_name.spec_bytes().len() == utf8_len(param_name@));
+        assert(range == mk_range(crate::lsp_line(line), start as u32, crate::lsp_line(line), (start + utf8_len(param_name@)) as u32));
+    }
+@*/
 
 /*@ extract src/providers/call_hierarchy.rs handle_outgoing_calls
 @tags C05 C15 C11 C12
@@ -122,14 +147,14 @@ impl Backend {
     let ghost depsx = definition.dependencies@;
     let ghost deps = strs_v(depsx);
     let ghost d = dv(definition);
-    let ghost fits = deps_fit(v, p, deps);
+    let ghost fits = line_fits(d.line) && deps_fit(v, p, deps);
     proof { assert(out_calls(v, p, d, deps.take(0)) =~= Seq::<OutCallV>::empty()); }
 @forloop 1 it
     proof { assert(deps.take(i) =~= deps); }
 @loop 1
     invariant 0 <= i <= depsx.len(), it.remaining() == depsx.as_ref().skip(i),
         v == self.nv(), p == pbv(&file_path), d == dv(definition), depsx == definition.dependencies@, deps == strs_v(depsx),
-        fits == deps_fit(v, p, deps),
+        fits == (line_fits(d.line) && deps_fit(v, p, deps)),
         fits ==> out_calls_v(outgoing_calls@) =~= out_calls(v, p, d, deps.take(i)),
     ensures fits ==> out_calls_v(outgoing_calls@) =~= out_calls(v, p, d, deps),
     decreases depsx.len() - i
